@@ -53,7 +53,13 @@ def match_known(prop, v, known):
     return None
 
 
-def run_shard(prop, tier, seed, shard, nshards, cases, seconds, outdir, only_index=None, verbose=False):
+def hash_seed_of(seed, shard):
+    """Python's string-hash seed of a shard: fixed per (seed, shard) so that runs repeat, but different from shard to
+    shard, so that anything depending on set / dict-of-str iteration order is exercised under several orders."""
+    return (int(seed) * 131 + int(shard) * 7919 + 1) % 4294967295
+
+
+def run_shard(prop, tier, seed, shard, nshards, cases, seconds, outdir, only_index=None, verbose=False, hash_seed=None):
     out = os.path.join(outdir, f"shard{shard}.json")
     cmd = [sys.executable, "-W", "ignore", "-m", "hvmon.shard", prop, "--tier", tier, "--seed", str(seed),
            "--shard", str(shard), "--nshards", str(nshards), "--cases", str(cases),
@@ -63,7 +69,8 @@ def run_shard(prop, tier, seed, shard, nshards, cases, seconds, outdir, only_ind
     if verbose:
         cmd += ["--verbose"]
     env = dict(os.environ)
-    env.setdefault("PYTHONHASHSEED", "0")
+    hash_seed = hash_seed_of(seed, shard) if hash_seed is None else int(hash_seed)
+    env["PYTHONHASHSEED"] = str(hash_seed)
     watchdog = seconds * 4 + 600  # generous; a firing watchdog is inconclusive, never a violation
     try:
         p = subprocess.run(cmd, cwd=HERE, env=env, capture_output=not verbose, text=True, timeout=watchdog)
@@ -73,7 +80,11 @@ def run_shard(prop, tier, seed, shard, nshards, cases, seconds, outdir, only_ind
         tail = ((p.stderr or "") + (p.stdout or ""))[-3000:] if not verbose else ""
         return {"shard": shard, "dead": f"exit {p.returncode}", "stderr": tail}
     with open(out) as f:
-        return json.load(f)
+        res = json.load(f)
+    res["hash_seed"] = hash_seed
+    for v in res.get("violations", []):
+        v["hash_seed"] = hash_seed
+    return res
 
 
 def main(argv=None):
@@ -110,7 +121,7 @@ def main(argv=None):
             with open(replay) as f:
                 rp = json.load(f)
             res = run_shard(prop, rp.get("tier", tier), rp["seed"], 0, 1, 1, 3600, scratch,
-                            only_index=rp["index"], verbose=True)
+                            only_index=rp["index"], verbose=True, hash_seed=rp.get("hash_seed", 0))
             if "dead" in res:
                 print(f"INCONCLUSIVE property={prop} reason=replay shard {res['dead']}")
                 print(res.get("stderr", ""))
@@ -184,7 +195,7 @@ def aggregate(prop, mod, tier, seed, results, known, wall):
         if key not in seen_cases:
             seen_cases.add(key)
             with open(path, "w") as f:
-                json.dump({"property": prop, "seed": seed, "tier": tier, "index": v["index"],
+                json.dump({"property": prop, "seed": seed, "tier": tier, "index": v["index"], "hash_seed": v.get("hash_seed", 0),
                            "family": v["family"], "case": v["case"],
                            "violations": [x for x in new if (x["family"], x["index"]) == key]}, f, indent=1)
             lines.append(f"VIOLATION property={prop} replay={path}")
@@ -224,6 +235,7 @@ def aggregate(prop, mod, tier, seed, results, known, wall):
             "observed": {k: v for k, v in sorted(counters.items()) if not k.startswith("mon:")},
             "distinct_states_or_configurations": len(states),
             "shards": len(results),
+            "python_hash_seeds": sorted({r.get("hash_seed") for r in results if r.get("hash_seed") is not None}),
             "known_findings_matched": {k: n for k, (f, n) in matched.items()},
             "inconclusive": inconclusive,
             "not_reached": getattr(mod, "NOT_REACHED", []),
